@@ -128,6 +128,7 @@ def fold(res, params, r):
         res.harness_errors.append(r["harness_error"])
         return
     res.evaluations += r.get("evaluations", 1)
+    res.scenarios = getattr(res, "scenarios", 0) + 1
     for sig in r.get("nontrivial", ()):
         res.nt(sig if isinstance(sig, str) else repr(sig))
     if r.get("sample") is not None:
